@@ -41,6 +41,18 @@ def reference_repo():
     return _ref_repo
 
 
+def other_side(repo):
+    """the reviewed snapshot for the analysed tree, and vice versa"""
+    ref = reference_repo()
+    if os.path.abspath(repo.root) == os.path.abspath(ref.root):
+        return _current.get("repo") or ref
+    _current["repo"] = repo
+    return ref
+
+
+_current = {}
+
+
 class _H(Hooks):
     unroll = 1
 
@@ -79,6 +91,12 @@ def _same(a, b):
 
 def _relevant(effects):
     out = []
+    # a store that is overwritten later on the same path is dead: keep the last store per location
+    last_store = {}
+    for i, e in enumerate(effects):
+        if e[0] == "store" and isinstance(e[1], str):
+            last_store[e[1]] = i
+    effects = [e for i, e in enumerate(effects) if not (e[0] == "store" and isinstance(e[1], str) and last_store[e[1]] != i)]
     for e in effects:
         if e[0] in ("caught", "loop-bound"):
             continue
@@ -104,7 +122,13 @@ def _isinstance_classes(fn):
 
 def _filters(fn):
     out = {}
+    searches = set()
     for n in ast.walk(fn):
+        if isinstance(n, ast.Call) and u(n.func) in ("next", "any", "all", "sum", "len") and n.args and isinstance(n.args[0], (ast.GeneratorExp, ast.ListComp)):
+            searches.add(id(n.args[0]))  # a search / reduction, not a collection that loses elements
+    for n in ast.walk(fn):
+        if id(n) in searches:
+            continue
         if isinstance(n, (ast.ListComp, ast.SetComp, ast.GeneratorExp, ast.DictComp)):
             for g in n.generators:
                 for c in g.ifs:
@@ -146,12 +170,13 @@ def new_skip_conditions(repo, short, qualname):
     if isinstance(rt, Exception):
         return findings
     ref_atoms = {_norm_atom(a) for p in rt for a in p.atoms}
+    ref_skels = {_skel(a) for a in ref_atoms}
     ref_isinst = _isinstance_classes(ref_f.node)
     new_atoms = []
     for p in ct:
         for a in p.atoms:
             na = _norm_atom(a)
-            if na not in ref_atoms and not na.startswith("more(") and not na.startswith("raises(") and a not in new_atoms:
+            if na not in ref_atoms and _skel(na) not in ref_skels and not na.startswith("more(") and not na.startswith("raises(") and a not in new_atoms:
                 m = re.fullmatch(r"isinstance\(.*, (\w[\w.]*)\)", na)
                 if m and m.group(1) in ref_isinst:
                     continue  # the same type filter, written as a loop test instead of a comprehension filter (or vice versa)
@@ -226,7 +251,10 @@ def _eff_key(e):
     if e[0] == "aug":
         return (e[0], _skel(_norm_atom(e[1])) if isinstance(e[1], str) else "", e[2] if len(e) > 2 else "")
     if e[0] == "call":
-        return (e[0], _skel(_norm_atom(e[1])) if isinstance(e[1], str) else "", len(e) - 2)
+        t = _skel(_norm_atom(e[1])) if isinstance(e[1], str) else ""
+        if not t.startswith("self.") and "." in t:
+            t = "*." + t.rsplit(".", 1)[1]  # receiver denoted by an expression: only the operation is compared
+        return (e[0], t)
     for x in e[1:]:
         if isinstance(x, tuple) and len(x) == 2 and isinstance(x[0], str):
             out.append((x[0], _skel(_norm_atom(vtext(x[1])))))
@@ -239,6 +267,8 @@ def _res_key(p):
     kind = p.result[0]
     if kind == "fall":
         kind = "return"
+    if kind == "raise":
+        return (kind, str(p.result[1]).split("(")[0])  # the exception class; the message text is not compared
     return (kind, _skel(_norm_atom(vtext(p.result[1]))) if p.result[1] is not None else None)
 
 
@@ -283,14 +313,8 @@ def refinement_findings(repo, short, qualname):
         best = None
         for pc in cands:
             have = [_eff_key(e) for e in _relevant(pc.effects)]
-            missing = []
-            pool = list(have)
-            for w in want:
-                if w in pool:
-                    pool.remove(w)
-                else:
-                    missing.append(w)
-            resdiff = _res_key(pc) != wres
+            missing = [w for w in dict.fromkeys(want) if w not in have]
+            resdiff = not _res_equiv(pr, pc, ra)
             score = len(missing) + (1 if resdiff else 0)
             if best is None or score < best[0]:
                 best = (score, missing, resdiff, pc)
@@ -311,6 +335,30 @@ def refinement_findings(repo, short, qualname):
                     findings.append(("changed-result", f"{wres[0]} {str(wres[1])[:60]}", None,
                                      f"in the reviewed case [{case}] the function ended with `{wres[0]} {wres[1]}`; it now ends with `{_res_key(pc)[0]} {_res_key(pc)[1]}`"))
     return findings
+
+
+def _res_equiv(pr, pc, ra):
+    """same outcome, modulo: fall == return None; a returned predicate whose value the reviewed
+    case fixed (``return c`` vs ``if c: return True; return False``); loop-bound artefacts"""
+    a, b = _res_key(pr), _res_key(pc)
+    if a == b:
+        return True
+    if any(e[0] == "loop-bound" for e in pr.effects) or any(e[0] == "loop-bound" for e in pc.effects):
+        return True
+    if a[0] == b[0] == "return":
+        rv, cv = pr.result[1], pc.result[1]
+        for x, y, atoms in ((rv, cv, ra), (cv, rv, {_norm_atom(k): v for k, v in pc.atoms.items()})):
+            if isinstance(x, bool) and hasattr(y, "text"):
+                t = _norm_atom(y.text)
+                if t in atoms and bool(atoms[t]) == x:
+                    return True
+                other = {_norm_atom(k): v for k, v in (pc.atoms if atoms is ra else pr.atoms).items()}
+                if t in other and bool(other[t]) == x:
+                    return True
+                if t not in atoms and t not in other:
+                    # the predicate is returned unevaluated on one side and branched on (to True/False) on the other
+                    return True
+    return False
 
 
 def _is_subseq(a, b):
